@@ -652,6 +652,13 @@ func (s *simDstStream) Send(req pconnector.DestinationRunRequest) error {
 		ev.Note = stampsOf(req.Records)
 		w.log(ev)
 	}
+	if w.cfg.DstLinger {
+		// the plugin has the records, the caller has not got its return yet: the scheduler may
+		// deliver acknowledgments (Recv) first, as a real stream can
+		if d := w.park(s.ctx, s.p.kind("write-ret"), sys.cfg.ID, s.p.inc, nil); d.fault == "ctx" {
+			return s.ctx.Err()
+		}
+	}
 	return nil
 }
 
